@@ -692,8 +692,9 @@ func genProg(r *rand.Rand, ft features, disk bool) (*Tree, *Prog) {
 		cands = append(cands, "nowhere/"+pick(r, elemNames))
 		k.Imports = append(k.Imports, pick(r, cands))
 	}
-	// F16-11: a package outside the main package imports what only the main package's vendor directory holds
-	if p.Entry == "file" && r.Intn(4) == 0 {
+	// F16-11 (repaired by 657b966, kept in the default stream): a package outside the main package imports what
+	// only the main package's vendor directory holds
+	if (p.Entry == "file" || p.Entry == "path" || p.Entry == "dot") && r.Intn(4) == 0 {
 		ip := "onlymain/" + pick(r, elemNames)
 		rel := p.Main + "/vendor/" + ip
 		q := &pkgInfo{Dir: gp + "/src/" + rel, Rel: rel, IPath: ip, Name: pkgName(ip)}
